@@ -35,7 +35,13 @@ RULE = (
     "text before extends) injected at every chain position; cyc = ALL extends graphs on "
     "<= 4 templates from every entry; entry = chains entered through include/render from "
     "plain templates, for loops, root text, root blocks and override blocks of another "
-    "chain; samp = seeded random chains of depth 2..8 (mostly <= 4) over 3 names with "
+    "chain, and plain pages that after entering a chain go on to render its base, a bare "
+    "block of the same name or another chain (also through {% for t in names %}{% include "
+    "t %}); hist = on ONE Environment (CachingDictLoader, and DictLoader) all ordered pairs "
+    "and seeded triples/quadruples of renders of different entries of a universe h0 <- h1 "
+    "with 6 leaf configurations under each, sync/async mixed, each step compared with the "
+    "model's answer for that entry alone, plus str(template) of every cached template "
+    "against a fresh parse; samp = seeded random chains of depth 2..8 (mostly <= 4) over 3 names with "
     "random nesting, if/for wrappers, block.super once/twice, variable reads.  "
     "distinct = hash(sources, entry, data); non-trivial = the rendered chain has depth >= 2 "
     "and >= 1 block occurrence resolved to a definition from another template (or the "
@@ -73,6 +79,12 @@ ASSUMPTIONS = [
     "dont_care_standalone_include_blocks (…_participated = the engine took the second "
     "reading).  Chains (templates WITH extends) entered through include/render are "
     "judged strictly",
+    "once a chain entered from a plain page has finished, nothing of it may survive: a "
+    "later include of its base, a bare block of the same name in the page, or another "
+    "chain resolve on their own (the participate reading above only applies WHILE a chain "
+    "of depth >= 2 is being resolved)",
+    "a history step is judged against the model's answer for that entry alone (renders "
+    "are independent); str(template) of a cached template must equal str of a fresh parse",
 ]
 
 BUDGET = 250_000
@@ -172,7 +184,7 @@ def _walk_ctx(items: list, encl: str | None = None, infor: bool = False) -> Iter
             yield from _walk_ctx(it[3], it[1], infor)
         elif k == "if":
             yield from _walk_ctx(it[2], encl, infor)
-        elif k == "for":
+        elif k in ("for", "forin"):
             yield from _walk_ctx(it[3], encl, True)
 
 
@@ -195,7 +207,10 @@ def shape(prog: dict, entry: str) -> str:
             else:
                 loc = "in-root-text"
             tgt = M.chain_of(prog, it[2])
-            tk = "cycle" if tgt is None else ("chain" if len(tgt) > 1 else "standalone")
+            if it[2].startswith("@"):
+                tk = "dynamic"
+            else:
+                tk = "cycle" if tgt is None else ("chain" if len(tgt) > 1 else "standalone")
             return f"{it[1]}-{tk}-{loc}" + ("-in-for" if infor else "")
     return f"depth{len(chain)}"
 
@@ -232,6 +247,9 @@ class Runner:
         self.budget_hits = 0
         self.standalone_dc = False
         self.standalone_participated = False
+        self._strs: dict[tuple[str, str], str] = {}
+        self._hist_prog: Any = None
+        self._hist_exp: dict = {}
 
     def close(self) -> None:
         self.sc.stop()
@@ -309,7 +327,7 @@ class Runner:
             swapped = copy.deepcopy(prog)
             for items in swapped.values():
                 for it in M.includes_of(items):
-                    if it[1] == "include":
+                    if it[1] == "include" and not it[2].startswith("@"):
                         it[1] = "render"
                         it[3] = {**{v: v for v in ("v", "i", "j", "k")}, **it[3]}
             E2 = M.expected(swapped, entry, data)
@@ -448,6 +466,111 @@ class Runner:
         })
         return key
 
+    # -- histories -----------------------------------------------------------------
+    def _run_history(self, loader_cls: Any, sources: dict[str, str], steps: list, data: dict) -> list[tuple]:
+        env = self.Environment(loader=loader_cls(dict(sources)))
+        return [self._one(env, e, data, m == "async") for e, m in steps]
+
+    def _str_of(self, name: str, src: str) -> str:
+        k = (name, src)
+        v = self._strs.get(k)
+        if v is None:
+            env = self.Environment(loader=self.DictLoader({name: src}))
+            v = self._strs[k] = str(env.get_template(name))
+        return v
+
+    def _history_verdict(self, prog: dict, steps: list, data: dict, loader: str
+                         ) -> tuple[str | None, int, list, list]:
+        """First step whose outcome differs from the model's answer for that entry
+        alone -> (what, step index, expected sigs, observations)."""
+        sub = {}
+        for e, _ in steps:
+            for n in M.chain_of(prog, e) or [e]:
+                sub[n] = prog[n]
+        sources = M.emit(sub)
+        cls = self.CachingDictLoader if loader == "caching" else self.DictLoader
+        env = self.Environment(loader=cls(dict(sources)))
+        exp, obs = [], []
+        for j, (e, m) in enumerate(steps):
+            E = self._hist_exp.get((id(prog), e))
+            if E is None:
+                E = self._hist_exp[(id(prog), e)] = M.expected(prog, e, data)
+            a = self._one(env, e, data, m == "async")
+            exp.append(E)
+            obs.append(a)
+            w = self.judge(E, a)
+            if w:
+                return w, j, exp, obs
+        if loader == "caching":
+            # the parsed templates are shared by every later render: they must still
+            # say what their source says
+            for n, src in sources.items():
+                try:
+                    now = str(env.get_template(n))
+                except self.LiquidError:
+                    continue
+                if now != self._str_of(n, src):
+                    return "template-mutated", len(steps) - 1, exp, obs
+        return None, -1, exp, obs
+
+    def history(self, prog: dict, steps: list, data: dict) -> str | None:
+        ctx = self.ctx
+        if self._hist_prog is not prog:
+            self._hist_prog = prog
+            self._hist_exp = {}
+        key = None
+        for loader in ("caching", "plain"):
+            what, j, exp, obs = self._history_verdict(prog, steps, data, loader)
+            ctx.ev(len(obs))
+            ctx.count("history_steps", len(obs))
+            if loader == "caching":
+                ctx.count("histories")
+                if len({e for e, _ in steps}) > 1:
+                    ctx.count("histories_distinct_entries")
+                kinds = {x.kind if x.kind == "out" else x.err for x in exp}
+                if "required" in kinds and "out" in kinds:
+                    ctx.count("histories_mixing_required_error_and_output")
+                    ctx.nt("hist", repr(sorted(M.emit(prog).items())), repr(steps))
+                for x in exp:
+                    if x.kind == "err" and x.err != "recursive-nesting":
+                        ctx.count("error_cases")
+                    elif x.kind == "out":
+                        ctx.count("supers_checked", x.stats["supers"])
+            if what is None:
+                continue
+            # shrink: drop earlier steps while the last (failing) step keeps failing
+            steps2 = steps[: j + 1]
+            changed = True
+            while changed and len(steps2) > 1:
+                changed = False
+                for d in range(len(steps2) - 1):
+                    cand = steps2[:d] + steps2[d + 1:]
+                    w2, j2, _, _ = self._history_verdict(prog, cand, data, loader)
+                    if w2 == what and j2 == len(cand) - 1:
+                        steps2 = cand
+                        changed = True
+                        break
+            w3, j3, exp3, obs3 = self._history_verdict(prog, steps2, data, loader)
+            if w3 != what:
+                steps2, exp3, obs3 = steps[: j + 1], exp, obs
+            alone = len(steps2) == 1
+            pfx = ("" if alone else "after-other-render:") if loader == "plain" else (
+                "" if alone else "caching-loader-after-other-render:")
+            key = f"history:{pfx}{what}"
+            sub = {}
+            for e, _ in steps2:
+                for n in M.chain_of(prog, e) or [e]:
+                    sub[n] = prog[n]
+            descr = "; ".join(
+                f"step {i} {e}/{m}: expected {x.sig()!r} observed {a[:2]!r}"
+                for i, ((e, m), x, a) in enumerate(zip(steps2, exp3, obs3)))
+            ctx.violation(key, descr[:700], {
+                "family": "hist", "prog": sub, "steps": steps2, "loader": loader, "data": data,
+                "sources": M.emit(sub),
+            })
+            break
+        return key
+
     # -- minimisation over the abstract program ---------------------------------------
     def minimise(self, prog: dict, entry: str, data: dict, what: str, skind: str,
                  max_tests: int = 160) -> dict:
@@ -508,6 +631,8 @@ def _prune(prog: dict, entry: str) -> dict:
             continue
         keep.append(n)
         todo.extend(M.extends_of(prog[n]))
+        if any(it[2].startswith("@") for it in M.includes_of(prog[n])):
+            return dict(prog)  # names come from data: keep everything
         todo.extend(it[2] for it in M.includes_of(prog[n]))
     return {n: prog[n] for n in prog if n in keep}
 
@@ -519,7 +644,7 @@ def _paths(items: list, pre: tuple = ()) -> Iterator[tuple]:
             yield from _paths(it[3], (*pre, i, 3))
         elif it[0] == "if":
             yield from _paths(it[2], (*pre, i, 2))
-        elif it[0] == "for":
+        elif it[0] in ("for", "forin"):
             yield from _paths(it[3], (*pre, i, 3))
 
 
@@ -538,7 +663,7 @@ def _retarget(items: list, old: str, new: str | None) -> list:
                 out.append(["x", new])
             continue
         it = list(it)
-        if it[0] in ("b", "for"):
+        if it[0] in ("b", "for", "forin"):
             it[3] = _retarget(it[3], old, new)
         elif it[0] == "if":
             it[2] = _retarget(it[2], old, new)
@@ -857,7 +982,53 @@ def entry_case(shape_name: str, kind: str, inner: dict, inner_entry: str) -> tup
     return prog, entry
 
 
-def entry_cases(rng: random.Random, tier: str) -> Iterator[tuple[dict, str]]:
+AFTER_SHAPES = ("then-base", "then-bare", "then-mid", "then-other-chain", "other-chain-then",
+                "bare-chain-bare", "for-names", "for-names-bare", "block-then-base")
+
+
+def after_case(shape_name: str, kind: str, inner: dict, ientry: str,
+               names: tuple[str, str]) -> tuple[dict, str, dict]:
+    """A PLAIN page (no extends) enters a chain through include/render and then keeps
+    rendering in the same context: the chain's base on its own, a bare block of the same
+    name, a different chain with the same block names.  Every entry resolves on its own;
+    once a chain has finished nothing of it may survive."""
+    prog = copy.deepcopy(inner)
+    other, oentry = build_chain((("flat", "plain", "super"), ("flat", "super", "plain")),
+                                names=names, pfx="q")
+    prog.update(other)
+    chain = M.chain_of(inner, ientry) or [ientry]
+    mid = chain[len(chain) // 2]
+    inc = lambda t: ["inc", kind, t, {}]  # noqa: E731
+    bare = lambda tag: [["b", n, False, [["t", f"<{tag}{n}>"]], None] for n in names]  # noqa: E731
+    data = dict(DATA)
+    T = lambda s_: ["t", s_]  # noqa: E731
+    if shape_name == "then-base":
+        items = [T("("), inc(ientry), T(")("), inc(chain[-1]), T(")")]
+    elif shape_name == "then-bare":
+        items = [T("("), inc(ientry), T(")("), *bare("m"), T(")")]
+    elif shape_name == "then-mid":
+        items = [T("("), inc(ientry), T(")("), inc(mid), T(")("), inc(chain[-1]), T(")")]
+    elif shape_name == "then-other-chain":
+        items = [T("("), inc(ientry), T(")("), inc(oentry), T(")("), inc("q0"), T(")")]
+    elif shape_name == "other-chain-then":
+        items = [T("("), inc(oentry), T(")("), inc(ientry), T(")("), inc(chain[-1]), T(")")]
+    elif shape_name == "bare-chain-bare":
+        b1, b2 = bare("m")
+        items = [b1, T("("), inc(ientry), T(")"), b2]
+    elif shape_name == "block-then-base":
+        # the chain is entered from inside a bare block of the page
+        items = [["b", "z", False, [T("<z:"), inc(ientry), T(">")], None], T("("),
+                 inc(chain[-1]), T(")"), *bare("m")]
+    else:
+        data["names"] = [ientry, chain[-1], mid, chain[-1], oentry, "q0", ientry]
+        items = [["forin", "t", "names", [T("("), ["inc", "include", "@t", {}], T(")")]]]
+        if shape_name == "for-names-bare":
+            items += bare("m")
+    prog["m"] = items
+    return prog, "m", data
+
+
+def entry_cases(rng: random.Random, tier: str) -> Iterator[tuple[dict, str, dict | None]]:
     inner_cfgs: list[tuple] = [(c,) for c in CONFIGS]
     nsamp = 60 if tier == "quick" else 900
     for _ in range(nsamp):
@@ -871,16 +1042,23 @@ def entry_cases(rng: random.Random, tier: str) -> Iterator[tuple[dict, str]]:
             inner["n0"].append(["v", "k"])
             for sh in ENTRY_SHAPES:
                 for kind in ("include", "render"):
-                    yield entry_case(sh, kind, inner, ientry)
+                    yield (*entry_case(sh, kind, inner, ientry), None)
+            for sh in AFTER_SHAPES:
+                for kind in ("include", "render"):
+                    if kind == "render" and (sh.startswith("for-names") or names != ("a", "b")):
+                        continue
+                    yield after_case(sh, kind, inner, ientry, names)
 
 
 def _fam_entry(r: Runner, spec: dict, ctx: Ctx) -> None:
     rng = random.Random(f"{spec['seed']}:entry")
     last = None
-    for idx, (prog, entry) in enumerate(entry_cases(rng, spec["tier"])):
+    for idx, (prog, entry, data) in enumerate(entry_cases(rng, spec["tier"])):
         if idx % spec["n"] != spec["i"]:
             continue
-        r.case("entry", prog, entry)
+        r.case("entry", prog, entry, data)
+        if prog.get("m") and "q0" in prog:
+            ctx.count("cases_entry_after_chain")
         last = (prog, entry)
         if idx % 256 == spec["i"]:
             ctx.check_deadline()
@@ -986,8 +1164,71 @@ def _fam_exh4(r: Runner, spec: dict, ctx: Ctx) -> None:
             ctx.check_deadline()
 
 
+# ---------------------------------------------------------------------------
+# histories: several renders of DIFFERENT entries on ONE environment
+# ---------------------------------------------------------------------------
+
+HIST_LEAF = [("flat", "plain", "omit"), ("flat", "omit", "plain"), ("flat", "super", "super"),
+             ("flat", "omit", "omit"), ("12", "plain", "plain"), ("flat", "req", "plain")]
+HIST_C0 = [("flat", "req", "plain"), ("flat", "plain", "req"), ("flat", "req", "req"),
+           ("12", "plain", "req"), ("21", "req", "plain"), ("flat", "plain", "plain")]
+HIST_C1 = [("flat", "omit", "omit"), ("flat", "plain", "omit"), ("flat", "req", "omit"),
+           ("12", "plain", "req"), ("flat", "super", "req"), ("flat", "omit", "plain")]
+
+
+def hist_universe(c0: tuple, c1: tuple) -> tuple[dict, list[str]]:
+    """h0 (root) <- h1 (mid); six leaf configurations under each of them.  Every template
+    is an entry (the parents are also rendered directly)."""
+    names = ("a", "b")
+    prog = {"h0": tpl_items(0, c0, names, None, pfx="h"),
+            "h1": tpl_items(1, c1, names, "h0", pfx="h")}
+    k = 2
+    for parent in ("h0", "h1"):
+        for lc in HIST_LEAF:
+            prog[f"h{k}"] = tpl_items(k, lc, names, parent, pfx="h")
+            k += 1
+    return prog, list(prog)
+
+
+def hist_cases(rng: random.Random, tier: str) -> Iterator[tuple[dict, list[str]]]:
+    """ALL ordered pairs of entries of each universe (the same entry twice included),
+    plus seeded triples / quadruples."""
+    q = tier == "quick"
+    c0s = HIST_C0 if q else CONFIGS
+    c1s = HIST_C1 if q else CONFIGS
+    for c0 in c0s:
+        for c1 in c1s:
+            prog, entries = hist_universe(c0, c1)
+            for e1 in entries:
+                for e2 in entries:
+                    yield prog, [e1, e2]
+            for _ in range(40 if q else 24):
+                yield prog, [rng.choice(entries) for _ in range(rng.choice((3, 3, 4)))]
+
+
+HIST_MODES = ("ss", "sa", "as", "aa")
+
+
+def _fam_hist(r: Runner, spec: dict, ctx: Ctx) -> None:
+    rng = random.Random(f"{spec['seed']}:hist")
+    last = None
+    for idx, (prog, hist) in enumerate(hist_cases(rng, spec["tier"])):
+        if idx % spec["n"] != spec["i"]:
+            continue
+        pat = HIST_MODES[(idx // spec["n"]) % 4]
+        steps = [[e, "async" if pat[j % 2] == "a" else "sync"] for j, e in enumerate(hist)]
+        r.history(prog, steps, DATA)
+        last = (prog, steps)
+        if idx % 512 == spec["i"]:
+            ctx.check_deadline()
+    if last:
+        ctx.sample({"family": "hist", "steps": last[1],
+                    "sources": {n: s_ for n, s_ in M.emit(last[0]).items()
+                                if any(n in (M.chain_of(last[0], e) or []) for e, _ in last[1])}})
+
+
 FAMILIES = {"exh": _fam_exh, "ctl": _fam_ctl, "struct": _fam_struct, "cyc": _fam_cyc,
-            "entry": _fam_entry, "samp": _fam_samp, "exh4": _fam_exh4}
+            "entry": _fam_entry, "samp": _fam_samp, "exh4": _fam_exh4, "hist": _fam_hist}
 
 # ---------------------------------------------------------------------------
 # framework interface
@@ -1000,6 +1241,9 @@ def shards(tier: str, seed: int) -> list[dict[str, Any]]:  # noqa: ARG001
     n = 8 if q else 16
     for i in range(n):
         specs.append({"kind": "exh", "i": i, "n": n})
+    n = 1 if q else 12
+    for i in range(n):
+        specs.append({"kind": "samp", "i": i, "n": n, "count": 2500 if q else 30000})
     n = 2 if q else 8
     for i in range(n):
         specs.append({"kind": "entry", "i": i, "n": n})
@@ -1010,9 +1254,9 @@ def shards(tier: str, seed: int) -> list[dict[str, Any]]:  # noqa: ARG001
     for i in range(n):
         specs.append({"kind": "struct", "i": i, "n": n})
     specs.append({"kind": "cyc", "i": 0, "n": 1})
-    n = 1 if q else 12
+    n = 2 if q else 16
     for i in range(n):
-        specs.append({"kind": "samp", "i": i, "n": n, "count": 2500 if q else 30000})
+        specs.append({"kind": "hist", "i": i, "n": n})
     if not q:
         for i in range(32):
             specs.append({"kind": "exh4", "i": i, "n": 32})
@@ -1032,6 +1276,9 @@ def floors(tier: str) -> dict[str, int]:
         "nested_block_resolutions": 5_000,
         "cases_entry": 2_000 if q else 20_000,
         "cases_struct": 1_000,
+        "cases_entry_after_chain": 800 if q else 8_000,
+        "histories": 7_000 if q else 200_000,
+        "histories_mixing_required_error_and_output": 1_000 if q else 20_000,
         "set:expected_error_kinds": 5,
         "distinct_nontrivial": 20_000 if q else 200_000,
     }
@@ -1068,6 +1315,19 @@ def run_shard(spec: dict[str, Any], ctx: Ctx) -> None:
 def replay(wit: dict[str, Any], ctx: Ctx) -> None:
     r = Runner(ctx)
     try:
+        if wit.get("family") == "hist":
+            prog, steps, data = wit["prog"], [list(x) for x in wit["steps"]], wit.get("data") or DATA
+            print(f"replay C08: history on one Environment, loader={wit.get('loader')}")
+            for name, src in M.emit(prog).items():
+                print(f"  {name}: {src}")
+            what, j, exp, obs = r._history_verdict(prog, steps, data, wit.get("loader", "caching"))
+            for i, ((e, m), x, a) in enumerate(zip(steps, exp, obs)):
+                print(f"  step {i}: render {e} ({m}): expected {x.sig()!r} observed {a!r}"
+                      f"  -> {r.judge(x, a) or 'ok'}")
+            print(f"  verdict: {what or 'no violation'}")
+            if what:
+                r.history(prog, steps, data)
+            return
         prog, entry, data = wit["prog"], wit["entry"], wit.get("data") or DATA
         what, E, obs = r.evaluate(prog, entry, data)
         print(f"replay C08: family={wit.get('family')} entry={entry} data={data}")
